@@ -37,10 +37,10 @@ def run_case(cs):
         tree = {}
         p = ""
         for i in range(rng.randint(2, 4)):
-            p = (p + "/" if p else "") + world.gen_name(rng, rng.choice(["plain", "uni", "space"]), ext=False)
+            p = (p + "/" if p else "") + "d-" + world.gen_name(rng, rng.choice(["plain", "uni", "space"]), ext=False)
             tree[p] = None
-            tree[p + "/" + world.gen_name(rng, "plain")] = world.gen_bytes(rng, rng.randint(1, 30))
-        tree[world.gen_name(rng, "plain")] = world.gen_bytes(rng, 9)
+            tree[p + "/f-" + world.gen_name(rng, "plain")] = world.gen_bytes(rng, rng.randint(1, 30))
+        tree["f-" + world.gen_name(rng, "plain")] = world.gen_bytes(rng, 9)
     else:
         tree = world.gen_tree(rng, max_files=8, max_dirs=4, min_files=1)
     d = cs.dir()
